@@ -8,6 +8,7 @@ import (
 	"os"
 	"runtime"
 	"strconv"
+	"strings"
 	"sync/atomic"
 	"testing"
 	"time"
@@ -93,7 +94,29 @@ func TestWorker(t *testing.T) {
 		fmt.Fprintf(os.Stderr, "@@RUN %s %d START\n", p.Prop, p.Seed)
 		curSeed.Store(p.Seed)
 		curStart.Store(time.Now().UnixNano())
-		o := Execute(t, p, job.Trace)
+		var o *Outcome
+		if dp, ok := registry[p.Prop].(DualProp); ok && dp.Dual() {
+			pa, pb := *p, *p
+			pa.Variant, pb.Variant = "A", "B"
+			oa := Execute(t, &pa, job.Trace)
+			curStart.Store(time.Now().UnixNano())
+			o = Execute(t, &pb, job.Trace)
+			o.Violations = append(oa.Violations, o.Violations...)
+			if oa.Tooling != "" {
+				o.Tooling = oa.Tooling
+			}
+			compareEmissions(oa, o)
+			if len(o.Violations) > 0 && o.Plan == nil {
+				pc := *p
+				o.Plan = &pc
+			}
+			if o.Plan != nil {
+				o.Plan.Variant = ""
+			}
+			o.Checks += oa.Checks
+		} else {
+			o = Execute(t, p, job.Trace)
+		}
 		curStart.Store(0)
 		if job.KeepPlan && o.Plan == nil {
 			pc := *p
@@ -118,5 +141,32 @@ func TestWorker(t *testing.T) {
 			continue
 		}
 		run(prop.Gen(seed, job.Tier, job.Avoid))
+	}
+}
+
+// compareEmissions adds a violation to ob when run B (caller reuses and
+// scribbles its buffers) emitted anything different from run A (fresh buffers).
+func compareEmissions(oa, ob *Outcome) {
+	if oa.Hash == "" || ob.Hash == "" || oa.Truncated || ob.Truncated {
+		return
+	}
+	n := len(oa.Emit)
+	if len(ob.Emit) < n {
+		n = len(ob.Emit)
+	}
+	for i := 0; i < n; i++ {
+		if oa.Emit[i] != ob.Emit[i] {
+			seam := oa.Emit[i]
+			if j := strings.IndexByte(seam, ' '); j > 0 {
+				seam = seam[:j]
+			}
+			ob.Violations = append(ob.Violations, Violation{Class: "oracle", Sig: "c13:emission-differs:" + seam,
+				Msg: fmt.Sprintf("emission #%d differs between the run with fresh buffers and the run where the caller reuses and overwrites its buffers after each call returned:\n  fresh : %s\n  reused: %s", i, oa.Emit[i], ob.Emit[i])})
+			return
+		}
+	}
+	if len(oa.Emit) != len(ob.Emit) {
+		ob.Violations = append(ob.Violations, Violation{Class: "oracle", Sig: "c13:emission-count-differs",
+			Msg: fmt.Sprintf("%d emissions with fresh buffers, %d with reused buffers", len(oa.Emit), len(ob.Emit))})
 	}
 }
